@@ -4,7 +4,10 @@
    the audio / text segments of the same run, rejected values of N.  Events (harness/drive/c13):
      hdr  {sc, asset, TS, pm, ast, astmod, ...}   scenario constants: TS = media timescale of the video representation
           (ground truth of the asset generator / independent parse), pm = N of scte35_<N>, astmod = start_ % 60
-     mpd  {st, inband}                            inband = <<schemeIdUri, value>> of every InbandEventStream of the video AdaptationSets
+     hdr  also {opts, chunked}: the other URL options combined with scte35_<N> in this scenario (label), chunked delivery
+     mpd  {st, as, inband}                        as = one record per AdaptationSet of every Period: p (period index), kind (contentType or
+          the mimeType prefix), nscte = number of InbandEventStream elements (AdaptationSet or Representation level) with the SCTE-35
+          binary scheme; inband = <<schemeIdUri, value>> of every InbandEventStream of the video AdaptationSets
      seg  {st, st0, perr, run, s, e, ntop, emsgs} one served video segment: [s, e) = first tfdt .. + sum of sample durations,
           as pairs <<seconds, ticks>> over TS; run = the driver asked for the successor of the previous seg;
           st0 = status of the same URL without scte35_<N> (fetched only when st # 200, else -1);
@@ -12,7 +15,7 @@
           scheme, value, and the splice_info_section decoded by the driver's own decoder (ok, tid, lenok, crcok, cmd, eid,
           cancel, out, imm, haspts, hasdur, auto, pts16, bd16) and by gots (gok, gcmd, geid, gpts16, gbd16);
           33-bit values v are pairs <<v \div 16, v % 16>>; uint32 values are logged as int32 (two's complement)
-     oseg {kind, st, nemsg, ntop}                 one served audio / text segment of the same run
+     oseg {kind, st, nemsg, ntop}                 one served audio / text / generated-subtitle segment of the same run
      rej  {what, val, st}                         request with scte35_<val>, val outside {1,2,3}
      end  {}                                      end of the scenario
    Clauses that depend on the minute grid (C13.once missing, C13.none off-schedule) are evaluated for every reading
@@ -38,9 +41,13 @@ Hdr == /\ e.ev = "hdr"
        /\ h' = l /\ inband' = {} /\ rs' = None /\ ps' = None /\ pe' = None /\ carried' = {} /\ fails' = NoFails(e.astmod)
 
 \* ---------------------------------------------------------------- C13.mpd
+\* whenever scte35_<N> is set (alone or together with any other option): every video AdaptationSet of every Period
+\* announces the SCTE-35 in-band event stream exactly once, no other AdaptationSet announces it
 Mpd == /\ e.ev = "mpd"
-       /\ Clause("C13.mpd", e.st = 200 /\ \E j \in 1..Len(e.inband) : e.inband[j][1] = SchemeBin,
-                 <<"status", e.st, "InbandEventStream of the video AdaptationSet", e.inband>>)
+       /\ Clause("C13.mpd", /\ e.st = 200
+                            /\ \E j \in 1..Len(e.as) : e.as[j].kind = "video"
+                            /\ \A j \in 1..Len(e.as) : e.as[j].nscte = (IF e.as[j].kind = "video" THEN 1 ELSE 0),
+                 [status |-> e.st, adaptation_sets |-> e.as, video_inband |-> e.inband])
        /\ inband' = {e.inband[j] : j \in 1..Len(e.inband)}
        /\ UNCHANGED <<h, rs, ps, pe, carried, fails>>
 
